@@ -161,6 +161,10 @@ pub proof fn lemma_atime_only_trans(a: World, b: World, c: World)
 {
 }
 
+pub open spec fn under_ro_of(ro_roots: Set<PathV>, p: PathV) -> bool {
+    exists|r: PathV| #[trigger] ro_roots.contains(r) && r.is_prefix_of(p)
+}
+
 /// What a directory listing looks like (assumption about readdir): readable items carry the name
 /// of a distinct existing child; `None` stands for an item the OS failed to return.
 pub open spec fn listing_of(l: Seq<Option<Seq<u8>>>, w: World, dir: PathV) -> bool {
@@ -189,8 +193,18 @@ impl World {
         p.len() > 0 && self.cache_dirs.contains(parent(p)) && single_component(base_name(p)) && base_name(p)[0] != 0x2e
     }
 
+    /// The configuration part of the World only (what `rw` predicates of cache handles may depend on).
+    pub open spec fn cfg(self) -> (Set<PathV>, Set<PathV>) {
+        (self.cache_dirs, self.ro_roots)
+    }
+
+    /// d is the `.kismet_temp` subdirectory of a configured read-write cache directory.
+    pub open spec fn is_temp_dir(self, d: PathV) -> bool {
+        d.len() > 0 && base_name(d) == temp_name() && self.cache_dirs.contains(parent(d))
+    }
+
     pub open spec fn under_ro(self, p: PathV) -> bool {
-        exists|r: PathV| #[trigger] self.ro_roots.contains(r) && r.is_prefix_of(p)
+        under_ro_of(self.ro_roots, p)
     }
 
     pub open spec fn exists_file(self, p: PathV) -> bool {
@@ -214,6 +228,8 @@ impl World {
         &&& self.now >= 0
         &&& forall|p: PathV| #[trigger] self.files.contains_key(p) ==> self.inodes.contains_key(self.files[p])
         &&& forall|p: PathV| #[trigger] self.files.contains_key(p) ==> !self.dirs.contains(p)
+        &&& forall|p: PathV| #[trigger] self.dirs.contains(p) ==> !self.in_cache_namespace(p)   // no directory is named like a key
+        &&& forall|d: PathV| #[trigger] self.cache_dirs.contains(d) && d.len() > 0 ==> base_name(d) != temp_name()   // a `.kismet_temp` is never itself a cache directory
         &&& forall|i: InodeId| #[trigger] self.inodes.contains_key(i) ==> self.inodes[i].mtime <= trunc(self.now, self.gran)
         &&& forall|i: InodeId| #[trigger] self.inodes.contains_key(i) ==> self.inodes[i].mtime == trunc(self.inodes[i].mtime, self.gran)
     }
@@ -238,6 +254,17 @@ impl World {
     /// two of its own filesystem calls (see DESIGN: interference is not modelled in the stubs).
     pub open spec fn inv(self) -> bool {
         self.valid() && self.env_ok() && self.solo
+    }
+
+    /// What a writer hands to a write cache (C01 C03): a private path, never itself a cache entry, whose file (if it
+    /// exists) holds the bytes supplied for the key `name`, is flushed when `need_sync`, and is not yet visible anywhere.
+    pub open spec fn value_ok(self, value: PathV, name: Seq<u8>, need_sync: bool) -> bool {
+        &&& self.owned.contains(value) && !self.in_cache_namespace(value) && !self.under_ro(value)
+        &&& self.files.contains_key(value) ==> {
+            &&& self.supplied.contains((name, self.inode_at(value).content))
+            &&& (need_sync ==> self.inode_at(value).synced)
+            &&& forall|q: PathV| #[trigger] self.files.contains_key(q) && self.files[q] == self.files[value] ==> !self.in_cache_namespace(q)
+        }
     }
 
     /// The publish guarantee: `from` may be renamed/linked onto the entry path `to`.
@@ -276,8 +303,8 @@ impl World {
 
     /// `kept` for operations that also observe the periodic trigger (the countdown changes).
     pub open spec fn kept_nc(self, old: World) -> bool {
-        &&& self.owned == old.owned
-        &&& self.supplied == old.supplied
+        &&& old.owned.subset_of(self.owned)
+        &&& old.supplied.subset_of(self.supplied)
         &&& self.cache_dirs == old.cache_dirs
         &&& self.ro_roots == old.ro_roots
         &&& self.must_sync == old.must_sync
